@@ -238,6 +238,12 @@ pub struct Interpreter {
     /// Call stack for stack traces
     pub call_stack: Vec<StackFrame>,
 
+    /// Native-stack guard: number of open native recursion levels (nested VM runs and
+    /// recursive built-ins) and the stack address at the outermost one
+    native_recursion_depth: usize,
+    native_stack_base: usize,
+    native_stack_limit: usize,
+
     /// Counter for generating unique generator IDs
     next_generator_id: u64,
 
@@ -462,6 +468,9 @@ impl Interpreter {
             syntax_error_prototype,
             exports: FxHashMap::default(),
             call_stack: Vec::new(),
+            native_recursion_depth: 0,
+            native_stack_base: 0,
+            native_stack_limit: Self::DEFAULT_NATIVE_STACK_BYTES,
             next_generator_id: 1,
             next_symbol_id: symbol_counter,
             symbol_registry: FxHashMap::default(),
@@ -3963,8 +3972,70 @@ impl Interpreter {
         self.call_function_with_new_target(callee, this_value, args, JsValue::Undefined)
     }
 
+    /// Default for the native stack that nested VM runs and recursive built-ins may consume
+    /// before the script gets a RangeError instead of the process a stack overflow; it fits
+    /// the 2 MiB stack of a spawned thread
+    pub const DEFAULT_NATIVE_STACK_BYTES: usize = 1024 * 1024;
+
+    /// Set the native stack allowance (bytes) for functions called from natives and for
+    /// recursive built-ins; a host that runs the interpreter on a large stack can raise it
+    pub fn set_native_stack_limit(&mut self, bytes: usize) {
+        self.native_stack_limit = bytes;
+    }
+
+    /// Address of the caller's stack frame, for measuring native stack consumption
+    #[inline(never)]
+    pub(crate) fn native_stack_address() -> usize {
+        let marker = 0u8;
+        core::hint::black_box(&marker) as *const u8 as usize
+    }
+
+    /// For recursive built-ins that have no interpreter at hand: fails with a catchable
+    /// RangeError once the recursion has used the default native stack allowance since `base`
+    pub(crate) fn check_native_stack_since(base: usize) -> Result<(), JsError> {
+        if base.saturating_sub(Self::native_stack_address()) > Self::DEFAULT_NATIVE_STACK_BYTES {
+            return Err(JsError::range_error("Maximum call stack size exceeded"));
+        }
+        Ok(())
+    }
+
+    /// Enter one level of native recursion (a function called from a native, a nested value
+    /// in a recursive built-in). Fails with a catchable RangeError when the levels opened
+    /// since the outermost one have used up the native stack allowance.
+    /// Every successful call must be paired with `leave_native_recursion`.
+    pub(crate) fn enter_native_recursion(&mut self) -> Result<(), JsError> {
+        let here = Self::native_stack_address();
+        if self.native_recursion_depth == 0 {
+            self.native_stack_base = here;
+        } else if self.native_stack_base.saturating_sub(here) > self.native_stack_limit {
+            return Err(JsError::range_error("Maximum call stack size exceeded"));
+        }
+        self.native_recursion_depth += 1;
+        Ok(())
+    }
+
+    pub(crate) fn leave_native_recursion(&mut self) {
+        self.native_recursion_depth = self.native_recursion_depth.saturating_sub(1);
+        if self.native_recursion_depth == 0 {
+            self.native_stack_base = 0;
+        }
+    }
+
     /// Call a function with an explicit new.target value (for constructor calls)
     pub fn call_function_with_new_target(
+        &mut self,
+        callee: JsValue,
+        this_value: JsValue,
+        args: &[JsValue],
+        new_target: JsValue,
+    ) -> Result<Guarded, JsError> {
+        self.enter_native_recursion()?;
+        let result = self.call_function_unguarded(callee, this_value, args, new_target);
+        self.leave_native_recursion();
+        result
+    }
+
+    fn call_function_unguarded(
         &mut self,
         callee: JsValue,
         this_value: JsValue,
